@@ -3,13 +3,27 @@ use crate::{Ctx, evidence::Evidence};
 pub mod storeops;
 
 pub mod c01;
+pub mod c02;
+pub mod c03;
+pub mod c03_socket;
 pub mod c04;
+pub mod c05;
+pub mod c06;
+pub mod c06_socket;
+pub mod c07;
+pub mod c08;
 pub mod smoke;
 
 pub fn run(property: &str, ctx: &Ctx) -> Option<Evidence> {
     match property {
         "C01" => Some(c01::run(ctx)),
+        "C02" => Some(c02::run(ctx)),
+        "C03" => Some(c03::run(ctx)),
         "C04" => Some(c04::run(ctx)),
+        "C05" => Some(c05::run(ctx)),
+        "C06" => Some(c06::run(ctx)),
+        "C07" => Some(c07::run(ctx)),
+        "C08" => Some(c08::run(ctx)),
         "SMOKE" => Some(smoke::run(ctx)),
         _ => None,
     }
